@@ -83,6 +83,11 @@ Theorem C06_checked_site_releases_its_own_type : forall l s,
 Proof. exact checked_site_releases_its_own_type. Qed.
 Print Assumptions C06_checked_site_releases_its_own_type.
 
+Theorem C06_checked_new_is_released : forall l s,
+  lib_ok l = true -> In s (rl_sites l) -> rs_how s = "new"%string -> rs_code s <> 0.
+Proof. exact checked_new_is_released. Qed.
+Print Assumptions C06_checked_new_is_released.
+
 Example C06_release_example :
   let l := {| rl_name := "ex"%string; rl_cases := [{| rc_code := 0; rc_type := ""%string; rc_action := "none"%string |};
                                              {| rc_code := 1; rc_type := "ns::Item"%string; rc_action := "delete"%string |};
